@@ -22,6 +22,14 @@ CHECKS = {
         "floating histories (mixed @, Inv, Retr, +) up to 10^4 ops are measured against the 16 n eps drift bound. Search: exact group-law checker on the implementation over all 24 Hurwitz units.",
    note=TB + "axioms: Coq Reals (ClassicalDedekindReals.sig_forall_dec, sig_not_dec, FunctionalExtensionality.functional_extensionality_dep). IEEE rounding is not modelled: the round-off clause is tie-only.",
    technique="Coq proof (ring/field/nsatz over R, induction over histories) + exact differential correspondence", design="5/C03"),
+ 'C20': dict(
+   text="Proof (Coq, any number type): for every sequence of (batched) losses, continual() of StopOnPlateau / ReduceToBason after a history equals 'no documented cause (budget, `patience` consecutive "
+        "non-decreases, rejection / all-below-tol) held at any step so far' (induction over the sequence, no length bound); once false it stays false; after reset every future non-negative loss sequence "
+        "is handled exactly as by a fresh controller; the driver loops of scheduler.optimize, ICP and MPC (incl. MPC's max_steps-=1) make at most max(1,steps) controller steps. "
+        "Tie: exact route - the real objects are put into every state of a grid (steps 0..7 x patience_count 0..5 x continual x last) and stepped with every input class, for configs steps 1..6 x patience 1..4 "
+        "(exhaustive at the transition level, a superset of all sequences up to length 12), random long traces with resets, and recorded loss streams of the real optimize/ICP/MPC loops replayed through the model loop.",
+   note=TB + "axioms: none for the generic theorems; the reset theorem is over R (Coq Reals axioms). IEEE inf/nan semantics of (last-loss)/loss is written into the model (rel_lt) and validated by the tie; NaN losses are not modelled.",
+   technique="Coq proof by induction over loss sequences + exhaustive transition-level exact correspondence", design="5/C20"),
 }
 
 NOT_YET = {}
